@@ -1,0 +1,646 @@
+// Copyright 2020-2025 Buf Technologies, Inc.
+//
+// Licensed under the Apache License, Version 2.0 (the "License");
+// you may not use this file except in compliance with the License.
+// You may obtain a copy of the License at
+//
+//      http://www.apache.org/licenses/LICENSE-2.0
+//
+// Unless required by applicable law or agreed to in writing, software
+// distributed under the License is distributed on an "AS IS" BASIS,
+// WITHOUT WARRANTIES OR CONDITIONS OF ANY KIND, either express or implied.
+// See the License for the specific language governing permissions and
+// limitations under the License.
+
+//go:build verif
+
+package bufcheckserverbuild
+
+// Contracts for the gocv verifier (see /verif/DESIGN.md). Comment-only. Author: ca-Y (spec file
+// /verif/specs/C03_wiring.spec). GENERATED from the rule list of buf's documentation, see the note in the spec file.
+//
+// THE RULE SPEC BUILDERS (C03, C04 breaking; C05 lint). One table obligation set per builder variable: the builder
+// carries ITS OWN rule ID and is wired to the handler OF THE SAME NAME (rule ID in UPPER_SNAKE_CASE <-> Go identifier
+// Handle{Breaking,Lint}<UpperCamelCase>), has the documented rule type, and is deprecated exactly when documented so
+// (deprecated rules have a no-op handler and name their replacements).
+//@ table y_b_breaking_ENUM_NO_DELETE {C03 C04} of BreakingEnumNoDeleteRuleSpecBuilder
+//@   ensures own-id: BreakingEnumNoDeleteRuleSpecBuilder.ID == "ENUM_NO_DELETE"
+//@   ensures own-handler: BreakingEnumNoDeleteRuleSpecBuilder.Handler == bufcheckserverhandle.HandleBreakingEnumNoDelete
+//@   ensures not-deprecated: !BreakingEnumNoDeleteRuleSpecBuilder.Deprecated
+//@   ensures rule-type: BreakingEnumNoDeleteRuleSpecBuilder.Type == check.RuleTypeBreaking
+//@ table y_b_breaking_ENUM_SAME_JSON_FORMAT {C03 C04} of BreakingEnumSameJSONFormatRuleSpecBuilder
+//@   ensures own-id: BreakingEnumSameJSONFormatRuleSpecBuilder.ID == "ENUM_SAME_JSON_FORMAT"
+//@   ensures own-handler: BreakingEnumSameJSONFormatRuleSpecBuilder.Handler == bufcheckserverhandle.HandleBreakingEnumSameJSONFormat
+//@   ensures not-deprecated: !BreakingEnumSameJSONFormatRuleSpecBuilder.Deprecated
+//@   ensures rule-type: BreakingEnumSameJSONFormatRuleSpecBuilder.Type == check.RuleTypeBreaking
+//@ table y_b_breaking_ENUM_SAME_TYPE {C03 C04} of BreakingEnumSameTypeRuleSpecBuilder
+//@   ensures own-id: BreakingEnumSameTypeRuleSpecBuilder.ID == "ENUM_SAME_TYPE"
+//@   ensures own-handler: BreakingEnumSameTypeRuleSpecBuilder.Handler == bufcheckserverhandle.HandleBreakingEnumSameType
+//@   ensures not-deprecated: !BreakingEnumSameTypeRuleSpecBuilder.Deprecated
+//@   ensures rule-type: BreakingEnumSameTypeRuleSpecBuilder.Type == check.RuleTypeBreaking
+//@ table y_b_breaking_ENUM_VALUE_NO_DELETE {C03 C04} of BreakingEnumValueNoDeleteRuleSpecBuilder
+//@   ensures own-id: BreakingEnumValueNoDeleteRuleSpecBuilder.ID == "ENUM_VALUE_NO_DELETE"
+//@   ensures own-handler: BreakingEnumValueNoDeleteRuleSpecBuilder.Handler == bufcheckserverhandle.HandleBreakingEnumValueNoDelete
+//@   ensures not-deprecated: !BreakingEnumValueNoDeleteRuleSpecBuilder.Deprecated
+//@   ensures rule-type: BreakingEnumValueNoDeleteRuleSpecBuilder.Type == check.RuleTypeBreaking
+//@ table y_b_breaking_ENUM_VALUE_NO_DELETE_UNLESS_NAME_RESERVED {C03 C04} of BreakingEnumValueNoDeleteUnlessNameReservedRuleSpecBuilder
+//@   ensures own-id: BreakingEnumValueNoDeleteUnlessNameReservedRuleSpecBuilder.ID == "ENUM_VALUE_NO_DELETE_UNLESS_NAME_RESERVED"
+//@   ensures own-handler: BreakingEnumValueNoDeleteUnlessNameReservedRuleSpecBuilder.Handler == bufcheckserverhandle.HandleBreakingEnumValueNoDeleteUnlessNameReserved
+//@   ensures not-deprecated: !BreakingEnumValueNoDeleteUnlessNameReservedRuleSpecBuilder.Deprecated
+//@   ensures rule-type: BreakingEnumValueNoDeleteUnlessNameReservedRuleSpecBuilder.Type == check.RuleTypeBreaking
+//@ table y_b_breaking_ENUM_VALUE_NO_DELETE_UNLESS_NUMBER_RESERVED {C03 C04} of BreakingEnumValueNoDeleteUnlessNumberReservedRuleSpecBuilder
+//@   ensures own-id: BreakingEnumValueNoDeleteUnlessNumberReservedRuleSpecBuilder.ID == "ENUM_VALUE_NO_DELETE_UNLESS_NUMBER_RESERVED"
+//@   ensures own-handler: BreakingEnumValueNoDeleteUnlessNumberReservedRuleSpecBuilder.Handler == bufcheckserverhandle.HandleBreakingEnumValueNoDeleteUnlessNumberReserved
+//@   ensures not-deprecated: !BreakingEnumValueNoDeleteUnlessNumberReservedRuleSpecBuilder.Deprecated
+//@   ensures rule-type: BreakingEnumValueNoDeleteUnlessNumberReservedRuleSpecBuilder.Type == check.RuleTypeBreaking
+//@ table y_b_breaking_ENUM_VALUE_SAME_NAME {C03 C04} of BreakingEnumValueSameNameRuleSpecBuilder
+//@   ensures own-id: BreakingEnumValueSameNameRuleSpecBuilder.ID == "ENUM_VALUE_SAME_NAME"
+//@   ensures own-handler: BreakingEnumValueSameNameRuleSpecBuilder.Handler == bufcheckserverhandle.HandleBreakingEnumValueSameName
+//@   ensures not-deprecated: !BreakingEnumValueSameNameRuleSpecBuilder.Deprecated
+//@   ensures rule-type: BreakingEnumValueSameNameRuleSpecBuilder.Type == check.RuleTypeBreaking
+//@ table y_b_breaking_EXTENSION_MESSAGE_NO_DELETE {C03 C04} of BreakingExtensionMessageNoDeleteRuleSpecBuilder
+//@   ensures own-id: BreakingExtensionMessageNoDeleteRuleSpecBuilder.ID == "EXTENSION_MESSAGE_NO_DELETE"
+//@   ensures own-handler: BreakingExtensionMessageNoDeleteRuleSpecBuilder.Handler == bufcheckserverhandle.HandleBreakingExtensionMessageNoDelete
+//@   ensures not-deprecated: !BreakingExtensionMessageNoDeleteRuleSpecBuilder.Deprecated
+//@   ensures rule-type: BreakingExtensionMessageNoDeleteRuleSpecBuilder.Type == check.RuleTypeBreaking
+//@ table y_b_breaking_EXTENSION_NO_DELETE {C03 C04} of BreakingExtensionNoDeleteRuleSpecBuilder
+//@   ensures own-id: BreakingExtensionNoDeleteRuleSpecBuilder.ID == "EXTENSION_NO_DELETE"
+//@   ensures own-handler: BreakingExtensionNoDeleteRuleSpecBuilder.Handler == bufcheckserverhandle.HandleBreakingExtensionNoDelete
+//@   ensures not-deprecated: !BreakingExtensionNoDeleteRuleSpecBuilder.Deprecated
+//@   ensures rule-type: BreakingExtensionNoDeleteRuleSpecBuilder.Type == check.RuleTypeBreaking
+//@ table y_b_breaking_FIELD_NO_DELETE {C03 C04} of BreakingFieldNoDeleteRuleSpecBuilder
+//@   ensures own-id: BreakingFieldNoDeleteRuleSpecBuilder.ID == "FIELD_NO_DELETE"
+//@   ensures own-handler: BreakingFieldNoDeleteRuleSpecBuilder.Handler == bufcheckserverhandle.HandleBreakingFieldNoDelete
+//@   ensures not-deprecated: !BreakingFieldNoDeleteRuleSpecBuilder.Deprecated
+//@   ensures rule-type: BreakingFieldNoDeleteRuleSpecBuilder.Type == check.RuleTypeBreaking
+//@ table y_b_breaking_FIELD_NO_DELETE_UNLESS_NAME_RESERVED {C03 C04} of BreakingFieldNoDeleteUnlessNameReservedRuleSpecBuilder
+//@   ensures own-id: BreakingFieldNoDeleteUnlessNameReservedRuleSpecBuilder.ID == "FIELD_NO_DELETE_UNLESS_NAME_RESERVED"
+//@   ensures own-handler: BreakingFieldNoDeleteUnlessNameReservedRuleSpecBuilder.Handler == bufcheckserverhandle.HandleBreakingFieldNoDeleteUnlessNameReserved
+//@   ensures not-deprecated: !BreakingFieldNoDeleteUnlessNameReservedRuleSpecBuilder.Deprecated
+//@   ensures rule-type: BreakingFieldNoDeleteUnlessNameReservedRuleSpecBuilder.Type == check.RuleTypeBreaking
+//@ table y_b_breaking_FIELD_NO_DELETE_UNLESS_NUMBER_RESERVED {C03 C04} of BreakingFieldNoDeleteUnlessNumberReservedRuleSpecBuilder
+//@   ensures own-id: BreakingFieldNoDeleteUnlessNumberReservedRuleSpecBuilder.ID == "FIELD_NO_DELETE_UNLESS_NUMBER_RESERVED"
+//@   ensures own-handler: BreakingFieldNoDeleteUnlessNumberReservedRuleSpecBuilder.Handler == bufcheckserverhandle.HandleBreakingFieldNoDeleteUnlessNumberReserved
+//@   ensures not-deprecated: !BreakingFieldNoDeleteUnlessNumberReservedRuleSpecBuilder.Deprecated
+//@   ensures rule-type: BreakingFieldNoDeleteUnlessNumberReservedRuleSpecBuilder.Type == check.RuleTypeBreaking
+//@ table y_b_breaking_FIELD_SAME_CARDINALITY {C03 C04} of BreakingFieldSameCardinalityRuleSpecBuilder
+//@   ensures own-id: BreakingFieldSameCardinalityRuleSpecBuilder.ID == "FIELD_SAME_CARDINALITY"
+//@   ensures own-handler: BreakingFieldSameCardinalityRuleSpecBuilder.Handler == bufcheckserverhandle.HandleBreakingFieldSameCardinality
+//@   ensures not-deprecated: !BreakingFieldSameCardinalityRuleSpecBuilder.Deprecated
+//@   ensures rule-type: BreakingFieldSameCardinalityRuleSpecBuilder.Type == check.RuleTypeBreaking
+//@ table y_b_breaking_FIELD_SAME_CPP_STRING_TYPE {C03 C04} of BreakingFieldSameCppStringTypeRuleSpecBuilder
+//@   ensures own-id: BreakingFieldSameCppStringTypeRuleSpecBuilder.ID == "FIELD_SAME_CPP_STRING_TYPE"
+//@   ensures own-handler: BreakingFieldSameCppStringTypeRuleSpecBuilder.Handler == bufcheckserverhandle.HandleBreakingFieldSameCppStringType
+//@   ensures not-deprecated: !BreakingFieldSameCppStringTypeRuleSpecBuilder.Deprecated
+//@   ensures rule-type: BreakingFieldSameCppStringTypeRuleSpecBuilder.Type == check.RuleTypeBreaking
+//@ table y_b_breaking_FIELD_SAME_CTYPE {C03 C04} of BreakingFieldSameCTypeRuleSpecBuilder
+//@   ensures own-id: BreakingFieldSameCTypeRuleSpecBuilder.ID == "FIELD_SAME_CTYPE"
+//@   ensures deprecated: BreakingFieldSameCTypeRuleSpecBuilder.Deprecated && BreakingFieldSameCTypeRuleSpecBuilder.Handler != nil
+//@   ensures replacements: len(BreakingFieldSameCTypeRuleSpecBuilder.ReplacementIDs) == 1 && BreakingFieldSameCTypeRuleSpecBuilder.ReplacementIDs[0] == "FIELD_SAME_CPP_STRING_TYPE"
+//@   ensures rule-type: BreakingFieldSameCTypeRuleSpecBuilder.Type == check.RuleTypeBreaking
+//@ table y_b_breaking_FIELD_SAME_JAVA_UTF8_VALIDATION {C03 C04} of BreakingFieldSameJavaUTF8ValidationRuleSpecBuilder
+//@   ensures own-id: BreakingFieldSameJavaUTF8ValidationRuleSpecBuilder.ID == "FIELD_SAME_JAVA_UTF8_VALIDATION"
+//@   ensures own-handler: BreakingFieldSameJavaUTF8ValidationRuleSpecBuilder.Handler == bufcheckserverhandle.HandleBreakingFieldSameJavaUTF8Validation
+//@   ensures not-deprecated: !BreakingFieldSameJavaUTF8ValidationRuleSpecBuilder.Deprecated
+//@   ensures rule-type: BreakingFieldSameJavaUTF8ValidationRuleSpecBuilder.Type == check.RuleTypeBreaking
+//@ table y_b_breaking_FIELD_SAME_DEFAULT {C03 C04} of BreakingFieldSameDefaultRuleSpecBuilder
+//@   ensures own-id: BreakingFieldSameDefaultRuleSpecBuilder.ID == "FIELD_SAME_DEFAULT"
+//@   ensures own-handler: BreakingFieldSameDefaultRuleSpecBuilder.Handler == bufcheckserverhandle.HandleBreakingFieldSameDefault
+//@   ensures not-deprecated: !BreakingFieldSameDefaultRuleSpecBuilder.Deprecated
+//@   ensures rule-type: BreakingFieldSameDefaultRuleSpecBuilder.Type == check.RuleTypeBreaking
+//@ table y_b_breaking_FIELD_SAME_JSON_NAME {C03 C04} of BreakingFieldSameJSONNameRuleSpecBuilder
+//@   ensures own-id: BreakingFieldSameJSONNameRuleSpecBuilder.ID == "FIELD_SAME_JSON_NAME"
+//@   ensures own-handler: BreakingFieldSameJSONNameRuleSpecBuilder.Handler == bufcheckserverhandle.HandleBreakingFieldSameJSONName
+//@   ensures not-deprecated: !BreakingFieldSameJSONNameRuleSpecBuilder.Deprecated
+//@   ensures rule-type: BreakingFieldSameJSONNameRuleSpecBuilder.Type == check.RuleTypeBreaking
+//@ table y_b_breaking_FIELD_SAME_JSTYPE {C03 C04} of BreakingFieldSameJSTypeRuleSpecBuilder
+//@   ensures own-id: BreakingFieldSameJSTypeRuleSpecBuilder.ID == "FIELD_SAME_JSTYPE"
+//@   ensures own-handler: BreakingFieldSameJSTypeRuleSpecBuilder.Handler == bufcheckserverhandle.HandleBreakingFieldSameJSType
+//@   ensures not-deprecated: !BreakingFieldSameJSTypeRuleSpecBuilder.Deprecated
+//@   ensures rule-type: BreakingFieldSameJSTypeRuleSpecBuilder.Type == check.RuleTypeBreaking
+//@ table y_b_breaking_FIELD_SAME_LABEL {C03 C04} of BreakingFieldSameLabelRuleSpecBuilder
+//@   ensures own-id: BreakingFieldSameLabelRuleSpecBuilder.ID == "FIELD_SAME_LABEL"
+//@   ensures deprecated: BreakingFieldSameLabelRuleSpecBuilder.Deprecated && BreakingFieldSameLabelRuleSpecBuilder.Handler != nil
+//@   ensures replacements: len(BreakingFieldSameLabelRuleSpecBuilder.ReplacementIDs) == 3 && BreakingFieldSameLabelRuleSpecBuilder.ReplacementIDs[0] == "FIELD_SAME_CARDINALITY" && BreakingFieldSameLabelRuleSpecBuilder.ReplacementIDs[1] == "FIELD_WIRE_COMPATIBLE_CARDINALITY" && BreakingFieldSameLabelRuleSpecBuilder.ReplacementIDs[2] == "FIELD_WIRE_JSON_COMPATIBLE_CARDINALITY"
+//@   ensures rule-type: BreakingFieldSameLabelRuleSpecBuilder.Type == check.RuleTypeBreaking
+//@ table y_b_breaking_FIELD_SAME_LABEL {C03 C04} of BreakingFieldSameLabelV1Beta1RuleSpecBuilder
+//@   ensures own-id: BreakingFieldSameLabelV1Beta1RuleSpecBuilder.ID == "FIELD_SAME_LABEL"
+//@   ensures deprecated: BreakingFieldSameLabelV1Beta1RuleSpecBuilder.Deprecated && BreakingFieldSameLabelV1Beta1RuleSpecBuilder.Handler != nil
+//@   ensures replacements: len(BreakingFieldSameLabelV1Beta1RuleSpecBuilder.ReplacementIDs) == 1 && BreakingFieldSameLabelV1Beta1RuleSpecBuilder.ReplacementIDs[0] == "FIELD_SAME_CARDINALITY"
+//@   ensures rule-type: BreakingFieldSameLabelV1Beta1RuleSpecBuilder.Type == check.RuleTypeBreaking
+//@ table y_b_breaking_FIELD_SAME_NAME {C03 C04} of BreakingFieldSameNameRuleSpecBuilder
+//@   ensures own-id: BreakingFieldSameNameRuleSpecBuilder.ID == "FIELD_SAME_NAME"
+//@   ensures own-handler: BreakingFieldSameNameRuleSpecBuilder.Handler == bufcheckserverhandle.HandleBreakingFieldSameName
+//@   ensures not-deprecated: !BreakingFieldSameNameRuleSpecBuilder.Deprecated
+//@   ensures rule-type: BreakingFieldSameNameRuleSpecBuilder.Type == check.RuleTypeBreaking
+//@ table y_b_breaking_FIELD_SAME_ONEOF {C03 C04} of BreakingFieldSameOneofRuleSpecBuilder
+//@   ensures own-id: BreakingFieldSameOneofRuleSpecBuilder.ID == "FIELD_SAME_ONEOF"
+//@   ensures own-handler: BreakingFieldSameOneofRuleSpecBuilder.Handler == bufcheckserverhandle.HandleBreakingFieldSameOneof
+//@   ensures not-deprecated: !BreakingFieldSameOneofRuleSpecBuilder.Deprecated
+//@   ensures rule-type: BreakingFieldSameOneofRuleSpecBuilder.Type == check.RuleTypeBreaking
+//@ table y_b_breaking_FIELD_SAME_UTF8_VALIDATION {C03 C04} of BreakingFieldSameUTF8ValidationRuleSpecBuilder
+//@   ensures own-id: BreakingFieldSameUTF8ValidationRuleSpecBuilder.ID == "FIELD_SAME_UTF8_VALIDATION"
+//@   ensures own-handler: BreakingFieldSameUTF8ValidationRuleSpecBuilder.Handler == bufcheckserverhandle.HandleBreakingFieldSameUTF8Validation
+//@   ensures not-deprecated: !BreakingFieldSameUTF8ValidationRuleSpecBuilder.Deprecated
+//@   ensures rule-type: BreakingFieldSameUTF8ValidationRuleSpecBuilder.Type == check.RuleTypeBreaking
+//@ table y_b_breaking_FIELD_SAME_TYPE {C03 C04} of BreakingFieldSameTypeRuleSpecBuilder
+//@   ensures own-id: BreakingFieldSameTypeRuleSpecBuilder.ID == "FIELD_SAME_TYPE"
+//@   ensures own-handler: BreakingFieldSameTypeRuleSpecBuilder.Handler == bufcheckserverhandle.HandleBreakingFieldSameType
+//@   ensures not-deprecated: !BreakingFieldSameTypeRuleSpecBuilder.Deprecated
+//@   ensures rule-type: BreakingFieldSameTypeRuleSpecBuilder.Type == check.RuleTypeBreaking
+//@ table y_b_breaking_FIELD_WIRE_COMPATIBLE_CARDINALITY {C03 C04} of BreakingFieldWireCompatibleCardinalityRuleSpecBuilder
+//@   ensures own-id: BreakingFieldWireCompatibleCardinalityRuleSpecBuilder.ID == "FIELD_WIRE_COMPATIBLE_CARDINALITY"
+//@   ensures own-handler: BreakingFieldWireCompatibleCardinalityRuleSpecBuilder.Handler == bufcheckserverhandle.HandleBreakingFieldWireCompatibleCardinality
+//@   ensures not-deprecated: !BreakingFieldWireCompatibleCardinalityRuleSpecBuilder.Deprecated
+//@   ensures rule-type: BreakingFieldWireCompatibleCardinalityRuleSpecBuilder.Type == check.RuleTypeBreaking
+//@ table y_b_breaking_FIELD_WIRE_COMPATIBLE_TYPE {C03 C04} of BreakingFieldWireCompatibleTypeRuleSpecBuilder
+//@   ensures own-id: BreakingFieldWireCompatibleTypeRuleSpecBuilder.ID == "FIELD_WIRE_COMPATIBLE_TYPE"
+//@   ensures own-handler: BreakingFieldWireCompatibleTypeRuleSpecBuilder.Handler == bufcheckserverhandle.HandleBreakingFieldWireCompatibleType
+//@   ensures not-deprecated: !BreakingFieldWireCompatibleTypeRuleSpecBuilder.Deprecated
+//@   ensures rule-type: BreakingFieldWireCompatibleTypeRuleSpecBuilder.Type == check.RuleTypeBreaking
+//@ table y_b_breaking_FIELD_WIRE_JSON_COMPATIBLE_CARDINALITY {C03 C04} of BreakingFieldWireJSONCompatibleCardinalityRuleSpecBuilder
+//@   ensures own-id: BreakingFieldWireJSONCompatibleCardinalityRuleSpecBuilder.ID == "FIELD_WIRE_JSON_COMPATIBLE_CARDINALITY"
+//@   ensures own-handler: BreakingFieldWireJSONCompatibleCardinalityRuleSpecBuilder.Handler == bufcheckserverhandle.HandleBreakingFieldWireJSONCompatibleCardinality
+//@   ensures not-deprecated: !BreakingFieldWireJSONCompatibleCardinalityRuleSpecBuilder.Deprecated
+//@   ensures rule-type: BreakingFieldWireJSONCompatibleCardinalityRuleSpecBuilder.Type == check.RuleTypeBreaking
+//@ table y_b_breaking_FIELD_WIRE_JSON_COMPATIBLE_TYPE {C03 C04} of BreakingFieldWireJSONCompatibleTypeRuleSpecBuilder
+//@   ensures own-id: BreakingFieldWireJSONCompatibleTypeRuleSpecBuilder.ID == "FIELD_WIRE_JSON_COMPATIBLE_TYPE"
+//@   ensures own-handler: BreakingFieldWireJSONCompatibleTypeRuleSpecBuilder.Handler == bufcheckserverhandle.HandleBreakingFieldWireJSONCompatibleType
+//@   ensures not-deprecated: !BreakingFieldWireJSONCompatibleTypeRuleSpecBuilder.Deprecated
+//@   ensures rule-type: BreakingFieldWireJSONCompatibleTypeRuleSpecBuilder.Type == check.RuleTypeBreaking
+//@ table y_b_breaking_FILE_NO_DELETE {C03 C04} of BreakingFileNoDeleteRuleSpecBuilder
+//@   ensures own-id: BreakingFileNoDeleteRuleSpecBuilder.ID == "FILE_NO_DELETE"
+//@   ensures own-handler: BreakingFileNoDeleteRuleSpecBuilder.Handler == bufcheckserverhandle.HandleBreakingFileNoDelete
+//@   ensures not-deprecated: !BreakingFileNoDeleteRuleSpecBuilder.Deprecated
+//@   ensures rule-type: BreakingFileNoDeleteRuleSpecBuilder.Type == check.RuleTypeBreaking
+//@ table y_b_breaking_FILE_SAME_CSHARP_NAMESPACE {C03 C04} of BreakingFileSameCsharpNamespaceRuleSpecBuilder
+//@   ensures own-id: BreakingFileSameCsharpNamespaceRuleSpecBuilder.ID == "FILE_SAME_CSHARP_NAMESPACE"
+//@   ensures own-handler: BreakingFileSameCsharpNamespaceRuleSpecBuilder.Handler == bufcheckserverhandle.HandleBreakingFileSameCsharpNamespace
+//@   ensures not-deprecated: !BreakingFileSameCsharpNamespaceRuleSpecBuilder.Deprecated
+//@   ensures rule-type: BreakingFileSameCsharpNamespaceRuleSpecBuilder.Type == check.RuleTypeBreaking
+//@ table y_b_breaking_FILE_SAME_GO_PACKAGE {C03 C04} of BreakingFileSameGoPackageRuleSpecBuilder
+//@   ensures own-id: BreakingFileSameGoPackageRuleSpecBuilder.ID == "FILE_SAME_GO_PACKAGE"
+//@   ensures own-handler: BreakingFileSameGoPackageRuleSpecBuilder.Handler == bufcheckserverhandle.HandleBreakingFileSameGoPackage
+//@   ensures not-deprecated: !BreakingFileSameGoPackageRuleSpecBuilder.Deprecated
+//@   ensures rule-type: BreakingFileSameGoPackageRuleSpecBuilder.Type == check.RuleTypeBreaking
+//@ table y_b_breaking_FILE_SAME_JAVA_MULTIPLE_FILES {C03 C04} of BreakingFileSameJavaMultipleFilesRuleSpecBuilder
+//@   ensures own-id: BreakingFileSameJavaMultipleFilesRuleSpecBuilder.ID == "FILE_SAME_JAVA_MULTIPLE_FILES"
+//@   ensures own-handler: BreakingFileSameJavaMultipleFilesRuleSpecBuilder.Handler == bufcheckserverhandle.HandleBreakingFileSameJavaMultipleFiles
+//@   ensures not-deprecated: !BreakingFileSameJavaMultipleFilesRuleSpecBuilder.Deprecated
+//@   ensures rule-type: BreakingFileSameJavaMultipleFilesRuleSpecBuilder.Type == check.RuleTypeBreaking
+//@ table y_b_breaking_FILE_SAME_JAVA_OUTER_CLASSNAME {C03 C04} of BreakingFileSameJavaOuterClassnameRuleSpecBuilder
+//@   ensures own-id: BreakingFileSameJavaOuterClassnameRuleSpecBuilder.ID == "FILE_SAME_JAVA_OUTER_CLASSNAME"
+//@   ensures own-handler: BreakingFileSameJavaOuterClassnameRuleSpecBuilder.Handler == bufcheckserverhandle.HandleBreakingFileSameJavaOuterClassname
+//@   ensures not-deprecated: !BreakingFileSameJavaOuterClassnameRuleSpecBuilder.Deprecated
+//@   ensures rule-type: BreakingFileSameJavaOuterClassnameRuleSpecBuilder.Type == check.RuleTypeBreaking
+//@ table y_b_breaking_FILE_SAME_JAVA_PACKAGE {C03 C04} of BreakingFileSameJavaPackageRuleSpecBuilder
+//@   ensures own-id: BreakingFileSameJavaPackageRuleSpecBuilder.ID == "FILE_SAME_JAVA_PACKAGE"
+//@   ensures own-handler: BreakingFileSameJavaPackageRuleSpecBuilder.Handler == bufcheckserverhandle.HandleBreakingFileSameJavaPackage
+//@   ensures not-deprecated: !BreakingFileSameJavaPackageRuleSpecBuilder.Deprecated
+//@   ensures rule-type: BreakingFileSameJavaPackageRuleSpecBuilder.Type == check.RuleTypeBreaking
+//@ table y_b_breaking_FILE_SAME_JAVA_STRING_CHECK_UTF8 {C03 C04} of BreakingFileSameJavaStringCheckUtf8RuleSpecBuilder
+//@   ensures own-id: BreakingFileSameJavaStringCheckUtf8RuleSpecBuilder.ID == "FILE_SAME_JAVA_STRING_CHECK_UTF8"
+//@   ensures deprecated: BreakingFileSameJavaStringCheckUtf8RuleSpecBuilder.Deprecated && BreakingFileSameJavaStringCheckUtf8RuleSpecBuilder.Handler != nil
+//@   ensures replacements: len(BreakingFileSameJavaStringCheckUtf8RuleSpecBuilder.ReplacementIDs) == 1 && BreakingFileSameJavaStringCheckUtf8RuleSpecBuilder.ReplacementIDs[0] == "FIELD_SAME_JAVA_UTF8_VALIDATION"
+//@   ensures rule-type: BreakingFileSameJavaStringCheckUtf8RuleSpecBuilder.Type == check.RuleTypeBreaking
+//@ table y_b_breaking_FILE_SAME_OBJC_CLASS_PREFIX {C03 C04} of BreakingFileSameObjcClassPrefixRuleSpecBuilder
+//@   ensures own-id: BreakingFileSameObjcClassPrefixRuleSpecBuilder.ID == "FILE_SAME_OBJC_CLASS_PREFIX"
+//@   ensures own-handler: BreakingFileSameObjcClassPrefixRuleSpecBuilder.Handler == bufcheckserverhandle.HandleBreakingFileSameObjcClassPrefix
+//@   ensures not-deprecated: !BreakingFileSameObjcClassPrefixRuleSpecBuilder.Deprecated
+//@   ensures rule-type: BreakingFileSameObjcClassPrefixRuleSpecBuilder.Type == check.RuleTypeBreaking
+//@ table y_b_breaking_FILE_SAME_PACKAGE {C03 C04} of BreakingFileSamePackageRuleSpecBuilder
+//@   ensures own-id: BreakingFileSamePackageRuleSpecBuilder.ID == "FILE_SAME_PACKAGE"
+//@   ensures own-handler: BreakingFileSamePackageRuleSpecBuilder.Handler == bufcheckserverhandle.HandleBreakingFileSamePackage
+//@   ensures not-deprecated: !BreakingFileSamePackageRuleSpecBuilder.Deprecated
+//@   ensures rule-type: BreakingFileSamePackageRuleSpecBuilder.Type == check.RuleTypeBreaking
+//@ table y_b_breaking_FILE_SAME_PHP_CLASS_PREFIX {C03 C04} of BreakingFileSamePhpClassPrefixRuleSpecBuilder
+//@   ensures own-id: BreakingFileSamePhpClassPrefixRuleSpecBuilder.ID == "FILE_SAME_PHP_CLASS_PREFIX"
+//@   ensures own-handler: BreakingFileSamePhpClassPrefixRuleSpecBuilder.Handler == bufcheckserverhandle.HandleBreakingFileSamePhpClassPrefix
+//@   ensures not-deprecated: !BreakingFileSamePhpClassPrefixRuleSpecBuilder.Deprecated
+//@   ensures rule-type: BreakingFileSamePhpClassPrefixRuleSpecBuilder.Type == check.RuleTypeBreaking
+//@ table y_b_breaking_FILE_SAME_PHP_METADATA_NAMESPACE {C03 C04} of BreakingFileSamePhpMetadataNamespaceRuleSpecBuilder
+//@   ensures own-id: BreakingFileSamePhpMetadataNamespaceRuleSpecBuilder.ID == "FILE_SAME_PHP_METADATA_NAMESPACE"
+//@   ensures own-handler: BreakingFileSamePhpMetadataNamespaceRuleSpecBuilder.Handler == bufcheckserverhandle.HandleBreakingFileSamePhpMetadataNamespace
+//@   ensures not-deprecated: !BreakingFileSamePhpMetadataNamespaceRuleSpecBuilder.Deprecated
+//@   ensures rule-type: BreakingFileSamePhpMetadataNamespaceRuleSpecBuilder.Type == check.RuleTypeBreaking
+//@ table y_b_breaking_FILE_SAME_PHP_NAMESPACE {C03 C04} of BreakingFileSamePhpNamespaceRuleSpecBuilder
+//@   ensures own-id: BreakingFileSamePhpNamespaceRuleSpecBuilder.ID == "FILE_SAME_PHP_NAMESPACE"
+//@   ensures own-handler: BreakingFileSamePhpNamespaceRuleSpecBuilder.Handler == bufcheckserverhandle.HandleBreakingFileSamePhpNamespace
+//@   ensures not-deprecated: !BreakingFileSamePhpNamespaceRuleSpecBuilder.Deprecated
+//@   ensures rule-type: BreakingFileSamePhpNamespaceRuleSpecBuilder.Type == check.RuleTypeBreaking
+//@ table y_b_breaking_FILE_SAME_RUBY_PACKAGE {C03 C04} of BreakingFileSameRubyPackageRuleSpecBuilder
+//@   ensures own-id: BreakingFileSameRubyPackageRuleSpecBuilder.ID == "FILE_SAME_RUBY_PACKAGE"
+//@   ensures own-handler: BreakingFileSameRubyPackageRuleSpecBuilder.Handler == bufcheckserverhandle.HandleBreakingFileSameRubyPackage
+//@   ensures not-deprecated: !BreakingFileSameRubyPackageRuleSpecBuilder.Deprecated
+//@   ensures rule-type: BreakingFileSameRubyPackageRuleSpecBuilder.Type == check.RuleTypeBreaking
+//@ table y_b_breaking_FILE_SAME_SWIFT_PREFIX {C03 C04} of BreakingFileSameSwiftPrefixRuleSpecBuilder
+//@   ensures own-id: BreakingFileSameSwiftPrefixRuleSpecBuilder.ID == "FILE_SAME_SWIFT_PREFIX"
+//@   ensures own-handler: BreakingFileSameSwiftPrefixRuleSpecBuilder.Handler == bufcheckserverhandle.HandleBreakingFileSameSwiftPrefix
+//@   ensures not-deprecated: !BreakingFileSameSwiftPrefixRuleSpecBuilder.Deprecated
+//@   ensures rule-type: BreakingFileSameSwiftPrefixRuleSpecBuilder.Type == check.RuleTypeBreaking
+//@ table y_b_breaking_FILE_SAME_OPTIMIZE_FOR {C03 C04} of BreakingFileSameOptimizeForRuleSpecBuilder
+//@   ensures own-id: BreakingFileSameOptimizeForRuleSpecBuilder.ID == "FILE_SAME_OPTIMIZE_FOR"
+//@   ensures own-handler: BreakingFileSameOptimizeForRuleSpecBuilder.Handler == bufcheckserverhandle.HandleBreakingFileSameOptimizeFor
+//@   ensures not-deprecated: !BreakingFileSameOptimizeForRuleSpecBuilder.Deprecated
+//@   ensures rule-type: BreakingFileSameOptimizeForRuleSpecBuilder.Type == check.RuleTypeBreaking
+//@ table y_b_breaking_FILE_SAME_CC_GENERIC_SERVICES {C03 C04} of BreakingFileSameCcGenericServicesRuleSpecBuilder
+//@   ensures own-id: BreakingFileSameCcGenericServicesRuleSpecBuilder.ID == "FILE_SAME_CC_GENERIC_SERVICES"
+//@   ensures own-handler: BreakingFileSameCcGenericServicesRuleSpecBuilder.Handler == bufcheckserverhandle.HandleBreakingFileSameCcGenericServices
+//@   ensures not-deprecated: !BreakingFileSameCcGenericServicesRuleSpecBuilder.Deprecated
+//@   ensures rule-type: BreakingFileSameCcGenericServicesRuleSpecBuilder.Type == check.RuleTypeBreaking
+//@ table y_b_breaking_FILE_SAME_JAVA_GENERIC_SERVICES {C03 C04} of BreakingFileSameJavaGenericServicesRuleSpecBuilder
+//@   ensures own-id: BreakingFileSameJavaGenericServicesRuleSpecBuilder.ID == "FILE_SAME_JAVA_GENERIC_SERVICES"
+//@   ensures own-handler: BreakingFileSameJavaGenericServicesRuleSpecBuilder.Handler == bufcheckserverhandle.HandleBreakingFileSameJavaGenericServices
+//@   ensures not-deprecated: !BreakingFileSameJavaGenericServicesRuleSpecBuilder.Deprecated
+//@   ensures rule-type: BreakingFileSameJavaGenericServicesRuleSpecBuilder.Type == check.RuleTypeBreaking
+//@ table y_b_breaking_FILE_SAME_PY_GENERIC_SERVICES {C03 C04} of BreakingFileSamePyGenericServicesRuleSpecBuilder
+//@   ensures own-id: BreakingFileSamePyGenericServicesRuleSpecBuilder.ID == "FILE_SAME_PY_GENERIC_SERVICES"
+//@   ensures own-handler: BreakingFileSamePyGenericServicesRuleSpecBuilder.Handler == bufcheckserverhandle.HandleBreakingFileSamePyGenericServices
+//@   ensures not-deprecated: !BreakingFileSamePyGenericServicesRuleSpecBuilder.Deprecated
+//@   ensures rule-type: BreakingFileSamePyGenericServicesRuleSpecBuilder.Type == check.RuleTypeBreaking
+//@ table y_b_breaking_FILE_SAME_PHP_GENERIC_SERVICES {C03 C04} of BreakingFileSamePhpGenericServicesRuleSpecBuilder
+//@   ensures own-id: BreakingFileSamePhpGenericServicesRuleSpecBuilder.ID == "FILE_SAME_PHP_GENERIC_SERVICES"
+//@   ensures deprecated: BreakingFileSamePhpGenericServicesRuleSpecBuilder.Deprecated && BreakingFileSamePhpGenericServicesRuleSpecBuilder.Handler != nil
+//@   ensures replacements: len(BreakingFileSamePhpGenericServicesRuleSpecBuilder.ReplacementIDs) == 0
+//@   ensures rule-type: BreakingFileSamePhpGenericServicesRuleSpecBuilder.Type == check.RuleTypeBreaking
+//@ table y_b_breaking_FILE_SAME_CC_ENABLE_ARENAS {C03 C04} of BreakingFileSameCcEnableArenasRuleSpecBuilder
+//@   ensures own-id: BreakingFileSameCcEnableArenasRuleSpecBuilder.ID == "FILE_SAME_CC_ENABLE_ARENAS"
+//@   ensures own-handler: BreakingFileSameCcEnableArenasRuleSpecBuilder.Handler == bufcheckserverhandle.HandleBreakingFileSameCcEnableArenas
+//@   ensures not-deprecated: !BreakingFileSameCcEnableArenasRuleSpecBuilder.Deprecated
+//@   ensures rule-type: BreakingFileSameCcEnableArenasRuleSpecBuilder.Type == check.RuleTypeBreaking
+//@ table y_b_breaking_FILE_SAME_SYNTAX {C03 C04} of BreakingFileSameSyntaxRuleSpecBuilder
+//@   ensures own-id: BreakingFileSameSyntaxRuleSpecBuilder.ID == "FILE_SAME_SYNTAX"
+//@   ensures own-handler: BreakingFileSameSyntaxRuleSpecBuilder.Handler == bufcheckserverhandle.HandleBreakingFileSameSyntax
+//@   ensures not-deprecated: !BreakingFileSameSyntaxRuleSpecBuilder.Deprecated
+//@   ensures rule-type: BreakingFileSameSyntaxRuleSpecBuilder.Type == check.RuleTypeBreaking
+//@ table y_b_breaking_MESSAGE_NO_DELETE {C03 C04} of BreakingMessageNoDeleteRuleSpecBuilder
+//@   ensures own-id: BreakingMessageNoDeleteRuleSpecBuilder.ID == "MESSAGE_NO_DELETE"
+//@   ensures own-handler: BreakingMessageNoDeleteRuleSpecBuilder.Handler == bufcheckserverhandle.HandleBreakingMessageNoDelete
+//@   ensures not-deprecated: !BreakingMessageNoDeleteRuleSpecBuilder.Deprecated
+//@   ensures rule-type: BreakingMessageNoDeleteRuleSpecBuilder.Type == check.RuleTypeBreaking
+//@ table y_b_breaking_MESSAGE_NO_REMOVE_STANDARD_DESCRIPTOR_ACCESSOR {C03 C04} of BreakingMessageNoRemoveStandardDescriptorAccessorRuleSpecBuilder
+//@   ensures own-id: BreakingMessageNoRemoveStandardDescriptorAccessorRuleSpecBuilder.ID == "MESSAGE_NO_REMOVE_STANDARD_DESCRIPTOR_ACCESSOR"
+//@   ensures own-handler: BreakingMessageNoRemoveStandardDescriptorAccessorRuleSpecBuilder.Handler == bufcheckserverhandle.HandleBreakingMessageNoRemoveStandardDescriptorAccessor
+//@   ensures not-deprecated: !BreakingMessageNoRemoveStandardDescriptorAccessorRuleSpecBuilder.Deprecated
+//@   ensures rule-type: BreakingMessageNoRemoveStandardDescriptorAccessorRuleSpecBuilder.Type == check.RuleTypeBreaking
+//@ table y_b_breaking_MESSAGE_SAME_JSON_FORMAT {C03 C04} of BreakingMessageSameJSONFormatRuleSpecBuilder
+//@   ensures own-id: BreakingMessageSameJSONFormatRuleSpecBuilder.ID == "MESSAGE_SAME_JSON_FORMAT"
+//@   ensures own-handler: BreakingMessageSameJSONFormatRuleSpecBuilder.Handler == bufcheckserverhandle.HandleBreakingMessageSameJSONFormat
+//@   ensures not-deprecated: !BreakingMessageSameJSONFormatRuleSpecBuilder.Deprecated
+//@   ensures rule-type: BreakingMessageSameJSONFormatRuleSpecBuilder.Type == check.RuleTypeBreaking
+//@ table y_b_breaking_MESSAGE_SAME_MESSAGE_SET_WIRE_FORMAT {C03 C04} of BreakingMessageSameMessageSetWireFormatRuleSpecBuilder
+//@   ensures own-id: BreakingMessageSameMessageSetWireFormatRuleSpecBuilder.ID == "MESSAGE_SAME_MESSAGE_SET_WIRE_FORMAT"
+//@   ensures deprecated: BreakingMessageSameMessageSetWireFormatRuleSpecBuilder.Deprecated && BreakingMessageSameMessageSetWireFormatRuleSpecBuilder.Handler != nil
+//@   ensures replacements: len(BreakingMessageSameMessageSetWireFormatRuleSpecBuilder.ReplacementIDs) == 0
+//@   ensures rule-type: BreakingMessageSameMessageSetWireFormatRuleSpecBuilder.Type == check.RuleTypeBreaking
+//@ table y_b_breaking_MESSAGE_SAME_REQUIRED_FIELDS {C03 C04} of BreakingMessageSameRequiredFieldsRuleSpecBuilder
+//@   ensures own-id: BreakingMessageSameRequiredFieldsRuleSpecBuilder.ID == "MESSAGE_SAME_REQUIRED_FIELDS"
+//@   ensures own-handler: BreakingMessageSameRequiredFieldsRuleSpecBuilder.Handler == bufcheckserverhandle.HandleBreakingMessageSameRequiredFields
+//@   ensures not-deprecated: !BreakingMessageSameRequiredFieldsRuleSpecBuilder.Deprecated
+//@   ensures rule-type: BreakingMessageSameRequiredFieldsRuleSpecBuilder.Type == check.RuleTypeBreaking
+//@ table y_b_breaking_ONEOF_NO_DELETE {C03 C04} of BreakingOneofNoDeleteRuleSpecBuilder
+//@   ensures own-id: BreakingOneofNoDeleteRuleSpecBuilder.ID == "ONEOF_NO_DELETE"
+//@   ensures own-handler: BreakingOneofNoDeleteRuleSpecBuilder.Handler == bufcheckserverhandle.HandleBreakingOneofNoDelete
+//@   ensures not-deprecated: !BreakingOneofNoDeleteRuleSpecBuilder.Deprecated
+//@   ensures rule-type: BreakingOneofNoDeleteRuleSpecBuilder.Type == check.RuleTypeBreaking
+//@ table y_b_breaking_PACKAGE_ENUM_NO_DELETE {C03 C04} of BreakingPackageEnumNoDeleteRuleSpecBuilder
+//@   ensures own-id: BreakingPackageEnumNoDeleteRuleSpecBuilder.ID == "PACKAGE_ENUM_NO_DELETE"
+//@   ensures own-handler: BreakingPackageEnumNoDeleteRuleSpecBuilder.Handler == bufcheckserverhandle.HandleBreakingPackageEnumNoDelete
+//@   ensures not-deprecated: !BreakingPackageEnumNoDeleteRuleSpecBuilder.Deprecated
+//@   ensures rule-type: BreakingPackageEnumNoDeleteRuleSpecBuilder.Type == check.RuleTypeBreaking
+//@ table y_b_breaking_PACKAGE_EXTENSION_NO_DELETE {C03 C04} of BreakingPackageExtensionNoDeleteRuleSpecBuilder
+//@   ensures own-id: BreakingPackageExtensionNoDeleteRuleSpecBuilder.ID == "PACKAGE_EXTENSION_NO_DELETE"
+//@   ensures own-handler: BreakingPackageExtensionNoDeleteRuleSpecBuilder.Handler == bufcheckserverhandle.HandleBreakingPackageExtensionNoDelete
+//@   ensures not-deprecated: !BreakingPackageExtensionNoDeleteRuleSpecBuilder.Deprecated
+//@   ensures rule-type: BreakingPackageExtensionNoDeleteRuleSpecBuilder.Type == check.RuleTypeBreaking
+//@ table y_b_breaking_PACKAGE_MESSAGE_NO_DELETE {C03 C04} of BreakingPackageMessageNoDeleteRuleSpecBuilder
+//@   ensures own-id: BreakingPackageMessageNoDeleteRuleSpecBuilder.ID == "PACKAGE_MESSAGE_NO_DELETE"
+//@   ensures own-handler: BreakingPackageMessageNoDeleteRuleSpecBuilder.Handler == bufcheckserverhandle.HandleBreakingPackageMessageNoDelete
+//@   ensures not-deprecated: !BreakingPackageMessageNoDeleteRuleSpecBuilder.Deprecated
+//@   ensures rule-type: BreakingPackageMessageNoDeleteRuleSpecBuilder.Type == check.RuleTypeBreaking
+//@ table y_b_breaking_PACKAGE_NO_DELETE {C03 C04} of BreakingPackageNoDeleteRuleSpecBuilder
+//@   ensures own-id: BreakingPackageNoDeleteRuleSpecBuilder.ID == "PACKAGE_NO_DELETE"
+//@   ensures own-handler: BreakingPackageNoDeleteRuleSpecBuilder.Handler == bufcheckserverhandle.HandleBreakingPackageNoDelete
+//@   ensures not-deprecated: !BreakingPackageNoDeleteRuleSpecBuilder.Deprecated
+//@   ensures rule-type: BreakingPackageNoDeleteRuleSpecBuilder.Type == check.RuleTypeBreaking
+//@ table y_b_breaking_PACKAGE_SERVICE_NO_DELETE {C03 C04} of BreakingPackageServiceNoDeleteRuleSpecBuilder
+//@   ensures own-id: BreakingPackageServiceNoDeleteRuleSpecBuilder.ID == "PACKAGE_SERVICE_NO_DELETE"
+//@   ensures own-handler: BreakingPackageServiceNoDeleteRuleSpecBuilder.Handler == bufcheckserverhandle.HandleBreakingPackageServiceNoDelete
+//@   ensures not-deprecated: !BreakingPackageServiceNoDeleteRuleSpecBuilder.Deprecated
+//@   ensures rule-type: BreakingPackageServiceNoDeleteRuleSpecBuilder.Type == check.RuleTypeBreaking
+//@ table y_b_breaking_RESERVED_ENUM_NO_DELETE {C03 C04} of BreakingReservedEnumNoDeleteRuleSpecBuilder
+//@   ensures own-id: BreakingReservedEnumNoDeleteRuleSpecBuilder.ID == "RESERVED_ENUM_NO_DELETE"
+//@   ensures own-handler: BreakingReservedEnumNoDeleteRuleSpecBuilder.Handler == bufcheckserverhandle.HandleBreakingReservedEnumNoDelete
+//@   ensures not-deprecated: !BreakingReservedEnumNoDeleteRuleSpecBuilder.Deprecated
+//@   ensures rule-type: BreakingReservedEnumNoDeleteRuleSpecBuilder.Type == check.RuleTypeBreaking
+//@ table y_b_breaking_RESERVED_MESSAGE_NO_DELETE {C03 C04} of BreakingReservedMessageNoDeleteRuleSpecBuilder
+//@   ensures own-id: BreakingReservedMessageNoDeleteRuleSpecBuilder.ID == "RESERVED_MESSAGE_NO_DELETE"
+//@   ensures own-handler: BreakingReservedMessageNoDeleteRuleSpecBuilder.Handler == bufcheckserverhandle.HandleBreakingReservedMessageNoDelete
+//@   ensures not-deprecated: !BreakingReservedMessageNoDeleteRuleSpecBuilder.Deprecated
+//@   ensures rule-type: BreakingReservedMessageNoDeleteRuleSpecBuilder.Type == check.RuleTypeBreaking
+//@ table y_b_breaking_RPC_NO_DELETE {C03 C04} of BreakingRPCNoDeleteRuleSpecBuilder
+//@   ensures own-id: BreakingRPCNoDeleteRuleSpecBuilder.ID == "RPC_NO_DELETE"
+//@   ensures own-handler: BreakingRPCNoDeleteRuleSpecBuilder.Handler == bufcheckserverhandle.HandleBreakingRPCNoDelete
+//@   ensures not-deprecated: !BreakingRPCNoDeleteRuleSpecBuilder.Deprecated
+//@   ensures rule-type: BreakingRPCNoDeleteRuleSpecBuilder.Type == check.RuleTypeBreaking
+//@ table y_b_breaking_RPC_SAME_CLIENT_STREAMING {C03 C04} of BreakingRPCSameClientStreamingRuleSpecBuilder
+//@   ensures own-id: BreakingRPCSameClientStreamingRuleSpecBuilder.ID == "RPC_SAME_CLIENT_STREAMING"
+//@   ensures own-handler: BreakingRPCSameClientStreamingRuleSpecBuilder.Handler == bufcheckserverhandle.HandleBreakingRPCSameClientStreaming
+//@   ensures not-deprecated: !BreakingRPCSameClientStreamingRuleSpecBuilder.Deprecated
+//@   ensures rule-type: BreakingRPCSameClientStreamingRuleSpecBuilder.Type == check.RuleTypeBreaking
+//@ table y_b_breaking_RPC_SAME_IDEMPOTENCY_LEVEL {C03 C04} of BreakingRPCSameIdempotencyLevelRuleSpecBuilder
+//@   ensures own-id: BreakingRPCSameIdempotencyLevelRuleSpecBuilder.ID == "RPC_SAME_IDEMPOTENCY_LEVEL"
+//@   ensures own-handler: BreakingRPCSameIdempotencyLevelRuleSpecBuilder.Handler == bufcheckserverhandle.HandleBreakingRPCSameIdempotencyLevel
+//@   ensures not-deprecated: !BreakingRPCSameIdempotencyLevelRuleSpecBuilder.Deprecated
+//@   ensures rule-type: BreakingRPCSameIdempotencyLevelRuleSpecBuilder.Type == check.RuleTypeBreaking
+//@ table y_b_breaking_RPC_SAME_REQUEST_TYPE {C03 C04} of BreakingRPCSameRequestTypeRuleSpecBuilder
+//@   ensures own-id: BreakingRPCSameRequestTypeRuleSpecBuilder.ID == "RPC_SAME_REQUEST_TYPE"
+//@   ensures own-handler: BreakingRPCSameRequestTypeRuleSpecBuilder.Handler == bufcheckserverhandle.HandleBreakingRPCSameRequestType
+//@   ensures not-deprecated: !BreakingRPCSameRequestTypeRuleSpecBuilder.Deprecated
+//@   ensures rule-type: BreakingRPCSameRequestTypeRuleSpecBuilder.Type == check.RuleTypeBreaking
+//@ table y_b_breaking_RPC_SAME_RESPONSE_TYPE {C03 C04} of BreakingRPCSameResponseTypeRuleSpecBuilder
+//@   ensures own-id: BreakingRPCSameResponseTypeRuleSpecBuilder.ID == "RPC_SAME_RESPONSE_TYPE"
+//@   ensures own-handler: BreakingRPCSameResponseTypeRuleSpecBuilder.Handler == bufcheckserverhandle.HandleBreakingRPCSameResponseType
+//@   ensures not-deprecated: !BreakingRPCSameResponseTypeRuleSpecBuilder.Deprecated
+//@   ensures rule-type: BreakingRPCSameResponseTypeRuleSpecBuilder.Type == check.RuleTypeBreaking
+//@ table y_b_breaking_RPC_SAME_SERVER_STREAMING {C03 C04} of BreakingRPCSameServerStreamingRuleSpecBuilder
+//@   ensures own-id: BreakingRPCSameServerStreamingRuleSpecBuilder.ID == "RPC_SAME_SERVER_STREAMING"
+//@   ensures own-handler: BreakingRPCSameServerStreamingRuleSpecBuilder.Handler == bufcheckserverhandle.HandleBreakingRPCSameServerStreaming
+//@   ensures not-deprecated: !BreakingRPCSameServerStreamingRuleSpecBuilder.Deprecated
+//@   ensures rule-type: BreakingRPCSameServerStreamingRuleSpecBuilder.Type == check.RuleTypeBreaking
+//@ table y_b_breaking_SERVICE_NO_DELETE {C03 C04} of BreakingServiceNoDeleteRuleSpecBuilder
+//@   ensures own-id: BreakingServiceNoDeleteRuleSpecBuilder.ID == "SERVICE_NO_DELETE"
+//@   ensures own-handler: BreakingServiceNoDeleteRuleSpecBuilder.Handler == bufcheckserverhandle.HandleBreakingServiceNoDelete
+//@   ensures not-deprecated: !BreakingServiceNoDeleteRuleSpecBuilder.Deprecated
+//@   ensures rule-type: BreakingServiceNoDeleteRuleSpecBuilder.Type == check.RuleTypeBreaking
+//@ table y_b_lint_COMMENT_ENUM {C05} of LintCommentEnumRuleSpecBuilder
+//@   ensures own-id: LintCommentEnumRuleSpecBuilder.ID == "COMMENT_ENUM"
+//@   ensures own-handler: LintCommentEnumRuleSpecBuilder.Handler == bufcheckserverhandle.HandleLintCommentEnum
+//@   ensures not-deprecated: !LintCommentEnumRuleSpecBuilder.Deprecated
+//@   ensures rule-type: LintCommentEnumRuleSpecBuilder.Type == check.RuleTypeLint
+//@ table y_b_lint_COMMENT_ENUM_VALUE {C05} of LintCommentEnumValueRuleSpecBuilder
+//@   ensures own-id: LintCommentEnumValueRuleSpecBuilder.ID == "COMMENT_ENUM_VALUE"
+//@   ensures own-handler: LintCommentEnumValueRuleSpecBuilder.Handler == bufcheckserverhandle.HandleLintCommentEnumValue
+//@   ensures not-deprecated: !LintCommentEnumValueRuleSpecBuilder.Deprecated
+//@   ensures rule-type: LintCommentEnumValueRuleSpecBuilder.Type == check.RuleTypeLint
+//@ table y_b_lint_COMMENT_FIELD {C05} of LintCommentFieldRuleSpecBuilder
+//@   ensures own-id: LintCommentFieldRuleSpecBuilder.ID == "COMMENT_FIELD"
+//@   ensures own-handler: LintCommentFieldRuleSpecBuilder.Handler == bufcheckserverhandle.HandleLintCommentField
+//@   ensures not-deprecated: !LintCommentFieldRuleSpecBuilder.Deprecated
+//@   ensures rule-type: LintCommentFieldRuleSpecBuilder.Type == check.RuleTypeLint
+//@ table y_b_lint_COMMENT_MESSAGE {C05} of LintCommentMessageRuleSpecBuilder
+//@   ensures own-id: LintCommentMessageRuleSpecBuilder.ID == "COMMENT_MESSAGE"
+//@   ensures own-handler: LintCommentMessageRuleSpecBuilder.Handler == bufcheckserverhandle.HandleLintCommentMessage
+//@   ensures not-deprecated: !LintCommentMessageRuleSpecBuilder.Deprecated
+//@   ensures rule-type: LintCommentMessageRuleSpecBuilder.Type == check.RuleTypeLint
+//@ table y_b_lint_COMMENT_ONEOF {C05} of LintCommentOneofRuleSpecBuilder
+//@   ensures own-id: LintCommentOneofRuleSpecBuilder.ID == "COMMENT_ONEOF"
+//@   ensures own-handler: LintCommentOneofRuleSpecBuilder.Handler == bufcheckserverhandle.HandleLintCommentOneof
+//@   ensures not-deprecated: !LintCommentOneofRuleSpecBuilder.Deprecated
+//@   ensures rule-type: LintCommentOneofRuleSpecBuilder.Type == check.RuleTypeLint
+//@ table y_b_lint_COMMENT_RPC {C05} of LintCommentRPCRuleSpecBuilder
+//@   ensures own-id: LintCommentRPCRuleSpecBuilder.ID == "COMMENT_RPC"
+//@   ensures own-handler: LintCommentRPCRuleSpecBuilder.Handler == bufcheckserverhandle.HandleLintCommentRPC
+//@   ensures not-deprecated: !LintCommentRPCRuleSpecBuilder.Deprecated
+//@   ensures rule-type: LintCommentRPCRuleSpecBuilder.Type == check.RuleTypeLint
+//@ table y_b_lint_COMMENT_SERVICE {C05} of LintCommentServiceRuleSpecBuilder
+//@   ensures own-id: LintCommentServiceRuleSpecBuilder.ID == "COMMENT_SERVICE"
+//@   ensures own-handler: LintCommentServiceRuleSpecBuilder.Handler == bufcheckserverhandle.HandleLintCommentService
+//@   ensures not-deprecated: !LintCommentServiceRuleSpecBuilder.Deprecated
+//@   ensures rule-type: LintCommentServiceRuleSpecBuilder.Type == check.RuleTypeLint
+//@ table y_b_lint_DIRECTORY_SAME_PACKAGE {C05} of LintDirectorySamePackageRuleSpecBuilder
+//@   ensures own-id: LintDirectorySamePackageRuleSpecBuilder.ID == "DIRECTORY_SAME_PACKAGE"
+//@   ensures own-handler: LintDirectorySamePackageRuleSpecBuilder.Handler == bufcheckserverhandle.HandleLintDirectorySamePackage
+//@   ensures not-deprecated: !LintDirectorySamePackageRuleSpecBuilder.Deprecated
+//@   ensures rule-type: LintDirectorySamePackageRuleSpecBuilder.Type == check.RuleTypeLint
+//@ table y_b_lint_ENUM_FIRST_VALUE_ZERO {C05} of LintEnumFirstValueZeroRuleSpecBuilder
+//@   ensures own-id: LintEnumFirstValueZeroRuleSpecBuilder.ID == "ENUM_FIRST_VALUE_ZERO"
+//@   ensures own-handler: LintEnumFirstValueZeroRuleSpecBuilder.Handler == bufcheckserverhandle.HandleLintEnumFirstValueZero
+//@   ensures not-deprecated: !LintEnumFirstValueZeroRuleSpecBuilder.Deprecated
+//@   ensures rule-type: LintEnumFirstValueZeroRuleSpecBuilder.Type == check.RuleTypeLint
+//@ table y_b_lint_ENUM_NO_ALLOW_ALIAS {C05} of LintEnumNoAllowAliasRuleSpecBuilder
+//@   ensures own-id: LintEnumNoAllowAliasRuleSpecBuilder.ID == "ENUM_NO_ALLOW_ALIAS"
+//@   ensures own-handler: LintEnumNoAllowAliasRuleSpecBuilder.Handler == bufcheckserverhandle.HandleLintEnumNoAllowAlias
+//@   ensures not-deprecated: !LintEnumNoAllowAliasRuleSpecBuilder.Deprecated
+//@   ensures rule-type: LintEnumNoAllowAliasRuleSpecBuilder.Type == check.RuleTypeLint
+//@ table y_b_lint_ENUM_PASCAL_CASE {C05} of LintEnumPascalCaseRuleSpecBuilder
+//@   ensures own-id: LintEnumPascalCaseRuleSpecBuilder.ID == "ENUM_PASCAL_CASE"
+//@   ensures own-handler: LintEnumPascalCaseRuleSpecBuilder.Handler == bufcheckserverhandle.HandleLintEnumPascalCase
+//@   ensures not-deprecated: !LintEnumPascalCaseRuleSpecBuilder.Deprecated
+//@   ensures rule-type: LintEnumPascalCaseRuleSpecBuilder.Type == check.RuleTypeLint
+//@ table y_b_lint_ENUM_VALUE_PREFIX {C05} of LintEnumValuePrefixRuleSpecBuilder
+//@   ensures own-id: LintEnumValuePrefixRuleSpecBuilder.ID == "ENUM_VALUE_PREFIX"
+//@   ensures own-handler: LintEnumValuePrefixRuleSpecBuilder.Handler == bufcheckserverhandle.HandleLintEnumValuePrefix
+//@   ensures not-deprecated: !LintEnumValuePrefixRuleSpecBuilder.Deprecated
+//@   ensures rule-type: LintEnumValuePrefixRuleSpecBuilder.Type == check.RuleTypeLint
+//@ table y_b_lint_ENUM_VALUE_UPPER_SNAKE_CASE {C05} of LintEnumValueUpperSnakeCaseRuleSpecBuilder
+//@   ensures own-id: LintEnumValueUpperSnakeCaseRuleSpecBuilder.ID == "ENUM_VALUE_UPPER_SNAKE_CASE"
+//@   ensures own-handler: LintEnumValueUpperSnakeCaseRuleSpecBuilder.Handler == bufcheckserverhandle.HandleLintEnumValueUpperSnakeCase
+//@   ensures not-deprecated: !LintEnumValueUpperSnakeCaseRuleSpecBuilder.Deprecated
+//@   ensures rule-type: LintEnumValueUpperSnakeCaseRuleSpecBuilder.Type == check.RuleTypeLint
+//@ table y_b_lint_ENUM_ZERO_VALUE_SUFFIX {C05} of LintEnumZeroValueSuffixRuleSpecBuilder
+//@   ensures own-id: LintEnumZeroValueSuffixRuleSpecBuilder.ID == "ENUM_ZERO_VALUE_SUFFIX"
+//@   ensures own-handler: LintEnumZeroValueSuffixRuleSpecBuilder.Handler == bufcheckserverhandle.HandleLintEnumZeroValueSuffix
+//@   ensures not-deprecated: !LintEnumZeroValueSuffixRuleSpecBuilder.Deprecated
+//@   ensures rule-type: LintEnumZeroValueSuffixRuleSpecBuilder.Type == check.RuleTypeLint
+//@ table y_b_lint_FIELD_LOWER_SNAKE_CASE {C05} of LintFieldLowerSnakeCaseRuleSpecBuilder
+//@   ensures own-id: LintFieldLowerSnakeCaseRuleSpecBuilder.ID == "FIELD_LOWER_SNAKE_CASE"
+//@   ensures own-handler: LintFieldLowerSnakeCaseRuleSpecBuilder.Handler == bufcheckserverhandle.HandleLintFieldLowerSnakeCase
+//@   ensures not-deprecated: !LintFieldLowerSnakeCaseRuleSpecBuilder.Deprecated
+//@   ensures rule-type: LintFieldLowerSnakeCaseRuleSpecBuilder.Type == check.RuleTypeLint
+//@ table y_b_lint_FIELD_NO_DESCRIPTOR {C05} of LintFieldNoDescriptorRuleSpecBuilder
+//@   ensures own-id: LintFieldNoDescriptorRuleSpecBuilder.ID == "FIELD_NO_DESCRIPTOR"
+//@   ensures own-handler: LintFieldNoDescriptorRuleSpecBuilder.Handler == bufcheckserverhandle.HandleLintFieldNoDescriptor
+//@   ensures not-deprecated: !LintFieldNoDescriptorRuleSpecBuilder.Deprecated
+//@   ensures rule-type: LintFieldNoDescriptorRuleSpecBuilder.Type == check.RuleTypeLint
+//@ table y_b_lint_FIELD_NOT_REQUIRED {C05} of LintFieldNotRequiredRuleSpecBuilder
+//@   ensures own-id: LintFieldNotRequiredRuleSpecBuilder.ID == "FIELD_NOT_REQUIRED"
+//@   ensures own-handler: LintFieldNotRequiredRuleSpecBuilder.Handler == bufcheckserverhandle.HandleLintFieldNotRequired
+//@   ensures not-deprecated: !LintFieldNotRequiredRuleSpecBuilder.Deprecated
+//@   ensures rule-type: LintFieldNotRequiredRuleSpecBuilder.Type == check.RuleTypeLint
+//@ table y_b_lint_FILE_LOWER_SNAKE_CASE {C05} of LintFileLowerSnakeCaseRuleSpecBuilder
+//@   ensures own-id: LintFileLowerSnakeCaseRuleSpecBuilder.ID == "FILE_LOWER_SNAKE_CASE"
+//@   ensures own-handler: LintFileLowerSnakeCaseRuleSpecBuilder.Handler == bufcheckserverhandle.HandleLintFileLowerSnakeCase
+//@   ensures not-deprecated: !LintFileLowerSnakeCaseRuleSpecBuilder.Deprecated
+//@   ensures rule-type: LintFileLowerSnakeCaseRuleSpecBuilder.Type == check.RuleTypeLint
+//@ table y_b_lint_IMPORT_NO_PUBLIC {C05} of LintImportNoPublicRuleSpecBuilder
+//@   ensures own-id: LintImportNoPublicRuleSpecBuilder.ID == "IMPORT_NO_PUBLIC"
+//@   ensures own-handler: LintImportNoPublicRuleSpecBuilder.Handler == bufcheckserverhandle.HandleLintImportNoPublic
+//@   ensures not-deprecated: !LintImportNoPublicRuleSpecBuilder.Deprecated
+//@   ensures rule-type: LintImportNoPublicRuleSpecBuilder.Type == check.RuleTypeLint
+//@ table y_b_lint_IMPORT_NO_WEAK {C05} of LintImportNoWeakRuleSpecBuilder
+//@   ensures own-id: LintImportNoWeakRuleSpecBuilder.ID == "IMPORT_NO_WEAK"
+//@   ensures deprecated: LintImportNoWeakRuleSpecBuilder.Deprecated && LintImportNoWeakRuleSpecBuilder.Handler != nil
+//@   ensures replacements: len(LintImportNoWeakRuleSpecBuilder.ReplacementIDs) == 0
+//@   ensures rule-type: LintImportNoWeakRuleSpecBuilder.Type == check.RuleTypeLint
+//@ table y_b_lint_IMPORT_USED {C05} of LintImportUsedRuleSpecBuilder
+//@   ensures own-id: LintImportUsedRuleSpecBuilder.ID == "IMPORT_USED"
+//@   ensures own-handler: LintImportUsedRuleSpecBuilder.Handler == bufcheckserverhandle.HandleLintImportUsed
+//@   ensures not-deprecated: !LintImportUsedRuleSpecBuilder.Deprecated
+//@   ensures rule-type: LintImportUsedRuleSpecBuilder.Type == check.RuleTypeLint
+//@ table y_b_lint_MESSAGE_PASCAL_CASE {C05} of LintMessagePascalCaseRuleSpecBuilder
+//@   ensures own-id: LintMessagePascalCaseRuleSpecBuilder.ID == "MESSAGE_PASCAL_CASE"
+//@   ensures own-handler: LintMessagePascalCaseRuleSpecBuilder.Handler == bufcheckserverhandle.HandleLintMessagePascalCase
+//@   ensures not-deprecated: !LintMessagePascalCaseRuleSpecBuilder.Deprecated
+//@   ensures rule-type: LintMessagePascalCaseRuleSpecBuilder.Type == check.RuleTypeLint
+//@ table y_b_lint_ONEOF_LOWER_SNAKE_CASE {C05} of LintOneofLowerSnakeCaseRuleSpecBuilder
+//@   ensures own-id: LintOneofLowerSnakeCaseRuleSpecBuilder.ID == "ONEOF_LOWER_SNAKE_CASE"
+//@   ensures own-handler: LintOneofLowerSnakeCaseRuleSpecBuilder.Handler == bufcheckserverhandle.HandleLintOneofLowerSnakeCase
+//@   ensures not-deprecated: !LintOneofLowerSnakeCaseRuleSpecBuilder.Deprecated
+//@   ensures rule-type: LintOneofLowerSnakeCaseRuleSpecBuilder.Type == check.RuleTypeLint
+//@ table y_b_lint_PACKAGE_DEFINED {C05} of LintPackageDefinedRuleSpecBuilder
+//@   ensures own-id: LintPackageDefinedRuleSpecBuilder.ID == "PACKAGE_DEFINED"
+//@   ensures own-handler: LintPackageDefinedRuleSpecBuilder.Handler == bufcheckserverhandle.HandleLintPackageDefined
+//@   ensures not-deprecated: !LintPackageDefinedRuleSpecBuilder.Deprecated
+//@   ensures rule-type: LintPackageDefinedRuleSpecBuilder.Type == check.RuleTypeLint
+//@ table y_b_lint_PACKAGE_DIRECTORY_MATCH {C05} of LintPackageDirectoryMatchRuleSpecBuilder
+//@   ensures own-id: LintPackageDirectoryMatchRuleSpecBuilder.ID == "PACKAGE_DIRECTORY_MATCH"
+//@   ensures own-handler: LintPackageDirectoryMatchRuleSpecBuilder.Handler == bufcheckserverhandle.HandleLintPackageDirectoryMatch
+//@   ensures not-deprecated: !LintPackageDirectoryMatchRuleSpecBuilder.Deprecated
+//@   ensures rule-type: LintPackageDirectoryMatchRuleSpecBuilder.Type == check.RuleTypeLint
+//@ table y_b_lint_PACKAGE_LOWER_SNAKE_CASE {C05} of LintPackageLowerSnakeCaseRuleSpecBuilder
+//@   ensures own-id: LintPackageLowerSnakeCaseRuleSpecBuilder.ID == "PACKAGE_LOWER_SNAKE_CASE"
+//@   ensures own-handler: LintPackageLowerSnakeCaseRuleSpecBuilder.Handler == bufcheckserverhandle.HandleLintPackageLowerSnakeCase
+//@   ensures not-deprecated: !LintPackageLowerSnakeCaseRuleSpecBuilder.Deprecated
+//@   ensures rule-type: LintPackageLowerSnakeCaseRuleSpecBuilder.Type == check.RuleTypeLint
+//@ table y_b_lint_PACKAGE_NO_IMPORT_CYCLE {C05} of LintPackageNoImportCycleRuleSpecBuilder
+//@   ensures own-id: LintPackageNoImportCycleRuleSpecBuilder.ID == "PACKAGE_NO_IMPORT_CYCLE"
+//@   ensures own-handler: LintPackageNoImportCycleRuleSpecBuilder.Handler == bufcheckserverhandle.HandleLintPackageNoImportCycle
+//@   ensures not-deprecated: !LintPackageNoImportCycleRuleSpecBuilder.Deprecated
+//@   ensures rule-type: LintPackageNoImportCycleRuleSpecBuilder.Type == check.RuleTypeLint
+//@ table y_b_lint_PACKAGE_SAME_CSHARP_NAMESPACE {C05} of LintPackageSameCsharpNamespaceRuleSpecBuilder
+//@   ensures own-id: LintPackageSameCsharpNamespaceRuleSpecBuilder.ID == "PACKAGE_SAME_CSHARP_NAMESPACE"
+//@   ensures own-handler: LintPackageSameCsharpNamespaceRuleSpecBuilder.Handler == bufcheckserverhandle.HandleLintPackageSameCsharpNamespace
+//@   ensures not-deprecated: !LintPackageSameCsharpNamespaceRuleSpecBuilder.Deprecated
+//@   ensures rule-type: LintPackageSameCsharpNamespaceRuleSpecBuilder.Type == check.RuleTypeLint
+//@ table y_b_lint_PACKAGE_SAME_DIRECTORY {C05} of LintPackageSameDirectoryRuleSpecBuilder
+//@   ensures own-id: LintPackageSameDirectoryRuleSpecBuilder.ID == "PACKAGE_SAME_DIRECTORY"
+//@   ensures own-handler: LintPackageSameDirectoryRuleSpecBuilder.Handler == bufcheckserverhandle.HandleLintPackageSameDirectory
+//@   ensures not-deprecated: !LintPackageSameDirectoryRuleSpecBuilder.Deprecated
+//@   ensures rule-type: LintPackageSameDirectoryRuleSpecBuilder.Type == check.RuleTypeLint
+//@ table y_b_lint_PACKAGE_SAME_GO_PACKAGE {C05} of LintPackageSameGoPackageRuleSpecBuilder
+//@   ensures own-id: LintPackageSameGoPackageRuleSpecBuilder.ID == "PACKAGE_SAME_GO_PACKAGE"
+//@   ensures own-handler: LintPackageSameGoPackageRuleSpecBuilder.Handler == bufcheckserverhandle.HandleLintPackageSameGoPackage
+//@   ensures not-deprecated: !LintPackageSameGoPackageRuleSpecBuilder.Deprecated
+//@   ensures rule-type: LintPackageSameGoPackageRuleSpecBuilder.Type == check.RuleTypeLint
+//@ table y_b_lint_PACKAGE_SAME_JAVA_MULTIPLE_FILES {C05} of LintPackageSameJavaMultipleFilesRuleSpecBuilder
+//@   ensures own-id: LintPackageSameJavaMultipleFilesRuleSpecBuilder.ID == "PACKAGE_SAME_JAVA_MULTIPLE_FILES"
+//@   ensures own-handler: LintPackageSameJavaMultipleFilesRuleSpecBuilder.Handler == bufcheckserverhandle.HandleLintPackageSameJavaMultipleFiles
+//@   ensures not-deprecated: !LintPackageSameJavaMultipleFilesRuleSpecBuilder.Deprecated
+//@   ensures rule-type: LintPackageSameJavaMultipleFilesRuleSpecBuilder.Type == check.RuleTypeLint
+//@ table y_b_lint_PACKAGE_SAME_JAVA_PACKAGE {C05} of LintPackageSameJavaPackageRuleSpecBuilder
+//@   ensures own-id: LintPackageSameJavaPackageRuleSpecBuilder.ID == "PACKAGE_SAME_JAVA_PACKAGE"
+//@   ensures own-handler: LintPackageSameJavaPackageRuleSpecBuilder.Handler == bufcheckserverhandle.HandleLintPackageSameJavaPackage
+//@   ensures not-deprecated: !LintPackageSameJavaPackageRuleSpecBuilder.Deprecated
+//@   ensures rule-type: LintPackageSameJavaPackageRuleSpecBuilder.Type == check.RuleTypeLint
+//@ table y_b_lint_PACKAGE_SAME_PHP_NAMESPACE {C05} of LintPackageSamePhpNamespaceRuleSpecBuilder
+//@   ensures own-id: LintPackageSamePhpNamespaceRuleSpecBuilder.ID == "PACKAGE_SAME_PHP_NAMESPACE"
+//@   ensures own-handler: LintPackageSamePhpNamespaceRuleSpecBuilder.Handler == bufcheckserverhandle.HandleLintPackageSamePhpNamespace
+//@   ensures not-deprecated: !LintPackageSamePhpNamespaceRuleSpecBuilder.Deprecated
+//@   ensures rule-type: LintPackageSamePhpNamespaceRuleSpecBuilder.Type == check.RuleTypeLint
+//@ table y_b_lint_PACKAGE_SAME_RUBY_PACKAGE {C05} of LintPackageSameRubyPackageRuleSpecBuilder
+//@   ensures own-id: LintPackageSameRubyPackageRuleSpecBuilder.ID == "PACKAGE_SAME_RUBY_PACKAGE"
+//@   ensures own-handler: LintPackageSameRubyPackageRuleSpecBuilder.Handler == bufcheckserverhandle.HandleLintPackageSameRubyPackage
+//@   ensures not-deprecated: !LintPackageSameRubyPackageRuleSpecBuilder.Deprecated
+//@   ensures rule-type: LintPackageSameRubyPackageRuleSpecBuilder.Type == check.RuleTypeLint
+//@ table y_b_lint_PACKAGE_SAME_SWIFT_PREFIX {C05} of LintPackageSameSwiftPrefixRuleSpecBuilder
+//@   ensures own-id: LintPackageSameSwiftPrefixRuleSpecBuilder.ID == "PACKAGE_SAME_SWIFT_PREFIX"
+//@   ensures own-handler: LintPackageSameSwiftPrefixRuleSpecBuilder.Handler == bufcheckserverhandle.HandleLintPackageSameSwiftPrefix
+//@   ensures not-deprecated: !LintPackageSameSwiftPrefixRuleSpecBuilder.Deprecated
+//@   ensures rule-type: LintPackageSameSwiftPrefixRuleSpecBuilder.Type == check.RuleTypeLint
+//@ table y_b_lint_PACKAGE_VERSION_SUFFIX {C05} of LintPackageVersionSuffixRuleSpecBuilder
+//@   ensures own-id: LintPackageVersionSuffixRuleSpecBuilder.ID == "PACKAGE_VERSION_SUFFIX"
+//@   ensures own-handler: LintPackageVersionSuffixRuleSpecBuilder.Handler == bufcheckserverhandle.HandleLintPackageVersionSuffix
+//@   ensures not-deprecated: !LintPackageVersionSuffixRuleSpecBuilder.Deprecated
+//@   ensures rule-type: LintPackageVersionSuffixRuleSpecBuilder.Type == check.RuleTypeLint
+//@ table y_b_lint_PROTOVALIDATE {C05} of LintProtovalidateRuleSpecBuilder
+//@   ensures own-id: LintProtovalidateRuleSpecBuilder.ID == "PROTOVALIDATE"
+//@   ensures own-handler: LintProtovalidateRuleSpecBuilder.Handler == bufcheckserverhandle.HandleLintProtovalidate
+//@   ensures not-deprecated: !LintProtovalidateRuleSpecBuilder.Deprecated
+//@   ensures rule-type: LintProtovalidateRuleSpecBuilder.Type == check.RuleTypeLint
+//@ table y_b_lint_RPC_NO_CLIENT_STREAMING {C05} of LintRPCNoClientStreamingRuleSpecBuilder
+//@   ensures own-id: LintRPCNoClientStreamingRuleSpecBuilder.ID == "RPC_NO_CLIENT_STREAMING"
+//@   ensures own-handler: LintRPCNoClientStreamingRuleSpecBuilder.Handler == bufcheckserverhandle.HandleLintRPCNoClientStreaming
+//@   ensures not-deprecated: !LintRPCNoClientStreamingRuleSpecBuilder.Deprecated
+//@   ensures rule-type: LintRPCNoClientStreamingRuleSpecBuilder.Type == check.RuleTypeLint
+//@ table y_b_lint_RPC_NO_SERVER_STREAMING {C05} of LintRPCNoServerStreamingRuleSpecBuilder
+//@   ensures own-id: LintRPCNoServerStreamingRuleSpecBuilder.ID == "RPC_NO_SERVER_STREAMING"
+//@   ensures own-handler: LintRPCNoServerStreamingRuleSpecBuilder.Handler == bufcheckserverhandle.HandleLintRPCNoServerStreaming
+//@   ensures not-deprecated: !LintRPCNoServerStreamingRuleSpecBuilder.Deprecated
+//@   ensures rule-type: LintRPCNoServerStreamingRuleSpecBuilder.Type == check.RuleTypeLint
+//@ table y_b_lint_RPC_PASCAL_CASE {C05} of LintRPCPascalCaseRuleSpecBuilder
+//@   ensures own-id: LintRPCPascalCaseRuleSpecBuilder.ID == "RPC_PASCAL_CASE"
+//@   ensures own-handler: LintRPCPascalCaseRuleSpecBuilder.Handler == bufcheckserverhandle.HandleLintRPCPascalCase
+//@   ensures not-deprecated: !LintRPCPascalCaseRuleSpecBuilder.Deprecated
+//@   ensures rule-type: LintRPCPascalCaseRuleSpecBuilder.Type == check.RuleTypeLint
+//@ table y_b_lint_RPC_REQUEST_RESPONSE_UNIQUE {C05} of LintRPCRequestResponseUniqueRuleSpecBuilder
+//@   ensures own-id: LintRPCRequestResponseUniqueRuleSpecBuilder.ID == "RPC_REQUEST_RESPONSE_UNIQUE"
+//@   ensures own-handler: LintRPCRequestResponseUniqueRuleSpecBuilder.Handler == bufcheckserverhandle.HandleLintRPCRequestResponseUnique
+//@   ensures not-deprecated: !LintRPCRequestResponseUniqueRuleSpecBuilder.Deprecated
+//@   ensures rule-type: LintRPCRequestResponseUniqueRuleSpecBuilder.Type == check.RuleTypeLint
+//@ table y_b_lint_RPC_REQUEST_STANDARD_NAME {C05} of LintRPCRequestStandardNameRuleSpecBuilder
+//@   ensures own-id: LintRPCRequestStandardNameRuleSpecBuilder.ID == "RPC_REQUEST_STANDARD_NAME"
+//@   ensures own-handler: LintRPCRequestStandardNameRuleSpecBuilder.Handler == bufcheckserverhandle.HandleLintRPCRequestStandardName
+//@   ensures not-deprecated: !LintRPCRequestStandardNameRuleSpecBuilder.Deprecated
+//@   ensures rule-type: LintRPCRequestStandardNameRuleSpecBuilder.Type == check.RuleTypeLint
+//@ table y_b_lint_RPC_RESPONSE_STANDARD_NAME {C05} of LintRPCResponseStandardNameRuleSpecBuilder
+//@   ensures own-id: LintRPCResponseStandardNameRuleSpecBuilder.ID == "RPC_RESPONSE_STANDARD_NAME"
+//@   ensures own-handler: LintRPCResponseStandardNameRuleSpecBuilder.Handler == bufcheckserverhandle.HandleLintRPCResponseStandardName
+//@   ensures not-deprecated: !LintRPCResponseStandardNameRuleSpecBuilder.Deprecated
+//@   ensures rule-type: LintRPCResponseStandardNameRuleSpecBuilder.Type == check.RuleTypeLint
+//@ table y_b_lint_SERVICE_PASCAL_CASE {C05} of LintServicePascalCaseRuleSpecBuilder
+//@   ensures own-id: LintServicePascalCaseRuleSpecBuilder.ID == "SERVICE_PASCAL_CASE"
+//@   ensures own-handler: LintServicePascalCaseRuleSpecBuilder.Handler == bufcheckserverhandle.HandleLintServicePascalCase
+//@   ensures not-deprecated: !LintServicePascalCaseRuleSpecBuilder.Deprecated
+//@   ensures rule-type: LintServicePascalCaseRuleSpecBuilder.Type == check.RuleTypeLint
+//@ table y_b_lint_SERVICE_SUFFIX {C05} of LintServiceSuffixRuleSpecBuilder
+//@   ensures own-id: LintServiceSuffixRuleSpecBuilder.ID == "SERVICE_SUFFIX"
+//@   ensures own-handler: LintServiceSuffixRuleSpecBuilder.Handler == bufcheckserverhandle.HandleLintServiceSuffix
+//@   ensures not-deprecated: !LintServiceSuffixRuleSpecBuilder.Deprecated
+//@   ensures rule-type: LintServiceSuffixRuleSpecBuilder.Type == check.RuleTypeLint
+//@ table y_b_lint_STABLE_PACKAGE_NO_IMPORT_UNSTABLE {C05} of LintStablePackageNoImportUnstableRuleSpecBuilder
+//@   ensures own-id: LintStablePackageNoImportUnstableRuleSpecBuilder.ID == "STABLE_PACKAGE_NO_IMPORT_UNSTABLE"
+//@   ensures own-handler: LintStablePackageNoImportUnstableRuleSpecBuilder.Handler == bufcheckserverhandle.HandleLintStablePackageNoImportUnstable
+//@   ensures not-deprecated: !LintStablePackageNoImportUnstableRuleSpecBuilder.Deprecated
+//@   ensures rule-type: LintStablePackageNoImportUnstableRuleSpecBuilder.Type == check.RuleTypeLint
+//@ table y_b_lint_SYNTAX_SPECIFIED {C05} of LintSyntaxSpecifiedRuleSpecBuilder
+//@   ensures own-id: LintSyntaxSpecifiedRuleSpecBuilder.ID == "SYNTAX_SPECIFIED"
+//@   ensures own-handler: LintSyntaxSpecifiedRuleSpecBuilder.Handler == bufcheckserverhandle.HandleLintSyntaxSpecified
+//@   ensures not-deprecated: !LintSyntaxSpecifiedRuleSpecBuilder.Deprecated
+//@   ensures rule-type: LintSyntaxSpecifiedRuleSpecBuilder.Type == check.RuleTypeLint
+//
+// THE CATEGORY SPECS (C04 breaking categories, C06 lint categories): each variable carries the category ID of its name.
+//@ table y_c_FILE {C04} of FileCategorySpec
+//@   ensures own-id: FileCategorySpec.ID == "FILE"
+//@ table y_c_PACKAGE {C04} of PackageCategorySpec
+//@   ensures own-id: PackageCategorySpec.ID == "PACKAGE"
+//@ table y_c_WIRE {C04} of WireCategorySpec
+//@   ensures own-id: WireCategorySpec.ID == "WIRE"
+//@ table y_c_WIRE_JSON {C04} of WireJSONCategorySpec
+//@   ensures own-id: WireJSONCategorySpec.ID == "WIRE_JSON"
+//@ table y_c_BASIC {C06} of BasicCategorySpec
+//@   ensures own-id: BasicCategorySpec.ID == "BASIC"
+//@ table y_c_COMMENTS {C06} of CommentsCategorySpec
+//@   ensures own-id: CommentsCategorySpec.ID == "COMMENTS"
+//@ table y_c_DEFAULT {C06} of DefaultCategorySpec
+//@   ensures own-id: DefaultCategorySpec.ID == "DEFAULT"
+//@ table y_c_FILE_LAYOUT {C06} of FileLayoutCategorySpec
+//@   ensures own-id: FileLayoutCategorySpec.ID == "FILE_LAYOUT"
+//@ table y_c_MINIMAL {C06} of MinimalCategorySpec
+//@   ensures own-id: MinimalCategorySpec.ID == "MINIMAL"
+//@ table y_c_OTHER {C06} of OtherCategorySpec
+//@   ensures own-id: OtherCategorySpec.ID == "OTHER"
+//@ table y_c_PACKAGE_AFFINITY {C06} of PackageAffinityCategorySpec
+//@   ensures own-id: PackageAffinityCategorySpec.ID == "PACKAGE_AFFINITY"
+//@ table y_c_SENSIBLE {C06} of SensibleCategorySpec
+//@   ensures own-id: SensibleCategorySpec.ID == "SENSIBLE"
+//@ table y_c_STYLE_BASIC {C06} of StyleBasicCategorySpec
+//@   ensures own-id: StyleBasicCategorySpec.ID == "STYLE_BASIC"
+//@ table y_c_STYLE_DEFAULT {C06} of StyleDefaultCategorySpec
+//@   ensures own-id: StyleDefaultCategorySpec.ID == "STYLE_DEFAULT"
+//@ table y_c_STYLE_STANDARD {C06} of StyleStandardCategorySpec
+//@   ensures own-id: StyleStandardCategorySpec.ID == "STYLE_STANDARD"
+//@ table y_c_STANDARD {C06} of StandardCategorySpec
+//@   ensures own-id: StandardCategorySpec.ID == "STANDARD"
+//@ table y_c_UNARY_RPC {C06} of UnaryRPCCategorySpec
+//@   ensures own-id: UnaryRPCCategorySpec.ID == "UNARY_RPC"
